@@ -60,7 +60,18 @@ def noisy_moments(rng, shape, rmax=1 - 1e-9):
     if rng.uniform() < 0.2:
         r = np.full(shape, rmax)
     phi = rng.uniform(-np.pi, np.pi, shape)
-    return r * np.cos(phi), r * np.sin(phi), rng.uniform(-1, 1, shape), rng.uniform(-1, 1, shape)
+    a2, b2 = rng.uniform(-1, 1, shape), rng.uniform(-1, 1, shape)
+    if rng.uniform() < 0.25:
+        # far outside the realisable set: r1 close to one and second moments near the corners of [-1,1]^2; the
+        # MEM2 iteration collapses onto a single bin (singular Jacobian, vanishing update)
+        r = rmax * rng.uniform(0.9, 1, shape)
+        a2 = rng.choice([-1.0, 1.0], shape) * rng.uniform(0.8, 1, shape)
+        b2 = rng.choice([-1.0, 1.0], shape) * rng.uniform(0.8, 1, shape)
+    return r * np.cos(phi), r * np.sin(phi), a2, b2
+
+
+COLLAPSE_WITNESSES = [(-0.2594155172383735, -0.9573557954098488, -0.9742075595161157, 0.912474223829715, 36),
+                      (-0.2594155172383735, -0.9573557954098488, -0.9742075595161157, 0.912474223829715, 180)]
 
 
 def make_case(rng):
@@ -71,6 +82,13 @@ def make_case(rng):
     a1, b1, a2, b2 = (vonmises_moments if mclass == "vonmises" else noisy_moments)(rng, shape)
     nd = int(rng.choice([8, 12, 24, 36, 37, 72, 90, 180]))
     start = float(rng.choice([0.0, 0.0, 5.0, -180.0, 137.25]))
+    if rng.uniform() < 0.06:
+        # neighbourhood of an input found by the thorough tier (uniform sampling hits this region about once in
+        # 10^4 quadruples): the Newton iteration collapses onto one bin half way between two grid directions
+        w = COLLAPSE_WITNESSES[int(rng.integers(0, len(COLLAPSE_WITNESSES)))]
+        q = np.asarray(w[:4])[:, None] + 10 ** rng.uniform(-9, -3) * rng.uniform(-1, 1, (4, 3))
+        mclass, rank, nd, start = "collapse-witness", 1, int(w[4]), 0.0
+        a1, b1, a2, b2 = q
     return {"shape_rank": rank, "mclass": mclass, "a1": np.asarray(a1), "b1": np.asarray(b1), "a2": np.asarray(a2),
             "b2": np.asarray(b2), "nd": nd, "start": start}
 
